@@ -6,7 +6,7 @@ from vlib.core import hx
 MODULES = ['TLVerif.Props.C05']
 SOURCES = ["TLVerif.Codec.Json", "TLVerif.Codec.JsonPrim", "TLVerif.Codec.JsonText", "TLVerif.Codec.JsonTextLemmas", "TLVerif.Codec.JsonLemmas", "TLVerif.Codec.JsonAlt",
            "TLVerif.Codec.Ops.Json"]
-THEOREMS = ["TLVerif.Props.C05.json_valid", "TLVerif.Props.C05.json_numbers_wellformed", "TLVerif.Props.C05.json_roundtrip_fails_at_neg_zero", "TLVerif.Props.C05.json_roundtrip_fails_at_nan_payload", "TLVerif.Props.C05.prim_roundtrip_bool", "TLVerif.Props.C05.prim_roundtrip_string_utf8", "TLVerif.Props.C05.prim_string_non_utf8_is_base64", "TLVerif.Props.C05.prim_float32_specials", "TLVerif.Props.C05.prim_float64_specials", "TLVerif.Props.C05.prim_roundtrip_string", "TLVerif.Props.C05.prim_roundtrip_uint", "TLVerif.Props.C05.prim_roundtrip_int", "TLVerif.Props.C05.dict_key_non_utf8_has_no_json"]
+THEOREMS = ["TLVerif.Props.C05.json_valid", "TLVerif.Props.C05.json_numbers_wellformed", "TLVerif.Props.C05.float_empty_iff_zero_bits", "TLVerif.Props.C05.prim_roundtrip_neg_zero", "TLVerif.Props.C05.neg_zero_unmasked_field_roundtrips", "TLVerif.Props.C05.json_roundtrip_fails_at_nan_payload", "TLVerif.Props.C05.prim_roundtrip_bool", "TLVerif.Props.C05.prim_roundtrip_string_utf8", "TLVerif.Props.C05.prim_string_non_utf8_is_base64", "TLVerif.Props.C05.prim_float32_specials", "TLVerif.Props.C05.prim_float64_specials", "TLVerif.Props.C05.prim_roundtrip_string", "TLVerif.Props.C05.prim_roundtrip_uint", "TLVerif.Props.C05.prim_roundtrip_int", "TLVerif.Props.C05.dict_key_non_utf8_has_no_json"]
 
 
 def run(c):
